@@ -130,14 +130,27 @@ func sizeOfUvarint(n uint64) int {
 	return binary.PutUvarint(make([]byte, binary.MaxVarintLen64), n)
 }
 
+// sizeOfLengthPrefix returns the width of the uvarint length prefix of a record
+// whose total size (prefix included) is size. The prefix encodes size minus its
+// own width, which can be one byte narrower than the encoding of size itself.
+func sizeOfLengthPrefix(size uint64) int {
+	for w := 1; w <= binary.MaxVarintLen64 && uint64(w) < size; w++ {
+		if sizeOfUvarint(size-uint64(w)) == w {
+			return w
+		}
+	}
+	return sizeOfUvarint(size)
+}
+
 func (s *LinkedLog) ReadWithSize(offset uint64, size uint64) ([]OffsetAndSizeAndSlot, indexes.OffsetAndSize, error) {
 	if size > 256*mib {
 		return nil, indexes.OffsetAndSize{}, fmt.Errorf("compacted indexes length too large: %d", size)
 	}
 	// debugln("compactedIndexesLen:", compactedIndexesLen)
 	// Read the compressed indexes
-	data := make([]byte, size-uint64(sizeOfUvarint(size))) // The size bytes have already been read.
-	_, err := s.file.ReadAt(data, int64(offset)+int64(sizeOfUvarint(size)))
+	prefixLen := sizeOfLengthPrefix(size)
+	data := make([]byte, size-uint64(prefixLen)) // The size bytes have already been read.
+	_, err := s.file.ReadAt(data, int64(offset)+int64(prefixLen))
 	if err != nil {
 		return nil, indexes.OffsetAndSize{}, err
 	}
